@@ -192,6 +192,18 @@ class SymSeq:
         self.kind = kind
         self.contains = contains  # optional callable(I, item) -> z3 Bool (membership predicate)
 
+    def sym_method(self, I, name, args, kw):
+        if name == "extend" and isinstance(args[0], SymSeq):
+            # in-place extension of a sequence that is empty on this path: it becomes the other sequence
+            if not I.valid(self.length == 0):
+                raise Unsupported("extend of a possibly non-empty symbolic sequence")
+            o = args[0]
+            self.name, self.length, self.elem, self.kind, self.contains = f"{self.name}+{o.name}", o.length, o.elem, o.kind, o.contains
+            return None
+        if name == "extend" and isinstance(args[0], (list, tuple)) and len(args[0]) == 0:
+            return None
+        return NotImplemented
+
     def sym_contains(self, I, item):
         if self.contains is None:
             raise Unsupported(f"'in' on symbolic sequence {self.name} without a membership predicate")
